@@ -24,6 +24,7 @@ SLACK = 1.6        # scheduling slack allowed on top of period + tick
 
 
 def world(driver, timeouts, name):
+    global LATE
     org = e2e.Server(e2e.echo_handler)
     sink = e2e.Server(e2e.sink_handler)
     lp = {"http": e2e.free_port(), "socks": e2e.free_port()}
@@ -92,6 +93,39 @@ def trickle(p, target, lp, gap, n, echo, limit):
     t = until_closed(c, limit) if broke_at is None else 0.0
     e2e.close_quiet(c)
     return dict(kind="trickle-echo" if echo else "trickle-oneway", broke_at=broke_at, closed_after=t, gap=gap, n=n)
+
+
+def late_reply_origin(delay):
+    def h(c, a, rec):
+        c.settimeout(30)
+        while True:
+            d = c.recv(4096)
+            if not d:
+                break
+            rec["rx"] += d
+        time.sleep(delay)
+        c.sendall(b"done")
+        rec["tx"] += b"done"
+    return h
+
+
+def upload_then_halfclose(p, late, lp, period):
+    """a one-way upload that lasts longer than the period, then the client half-closes; the silent side answers
+    1.5 s later: the tunnel has carried data within the period all along and must still deliver the answer"""
+    c, head, extra = e2e.http_connect(lp["http"], "%s:%d" % (LOOP, late.port))
+    t_end = time.time() + period + 2.0
+    n = 0
+    try:
+        while time.time() < t_end:
+            c.sendall(b"u")
+            n += 1
+            time.sleep(0.5)
+        c.shutdown(socket.SHUT_WR)
+        got, how = e2e.recv_all(c, timeout=6.0)
+    except OSError as e:
+        got, how = b"", "error:%s" % e
+    e2e.close_quiet(c)
+    return dict(kind="upload-halfclose", got=got.decode("latin1"), how=how, sent=n)
 
 
 def udp_assoc(p, lp, limit):
@@ -169,7 +203,8 @@ def run(tier, seed, replay=None):
             started[k] = world(driver, t, "c13-" + k)
         jobs = []
         p, org, sink, lp = started["small"]
-        jobs += [("small", lambda: silent(p, org, lp, hi + 2)), ("small", lambda: burst_then_silent(p, org, lp, hi + 2)),
+        late = e2e.Server(late_reply_origin(1.5))
+        jobs += [("small", lambda: upload_then_halfclose(p, late, lp, P)),("small", lambda: silent(p, org, lp, hi + 2)), ("small", lambda: burst_then_silent(p, org, lp, hi + 2)),
                  ("small", lambda: trickle(p, org, lp, 1.2, 5, True, hi + 2)), ("small", lambda: trickle(p, sink, lp, 1.2, 5, False, hi + 2)),
                  ("small", lambda: trickle(p, org, lp, 1.7, 4, True, hi + 2)),
                  ("small", lambda: udp_assoc(p, lp, hi + 2)), ("small", lambda: live_idle(p, org, lp))]
@@ -199,6 +234,10 @@ def run(tier, seed, replay=None):
         period_tcp = cfg["idle"] if cfg else 600
         period_udp = cfg["udp"] if cfg else 600
         rp = {"kind": "failing-input", "world": wname, "timeouts": cfg, "history": h}
+        if h["kind"] == "upload-halfclose":
+            if h["got"] != "done" or h["how"] != "eof":
+                rep.fail("C13: timeouts %s: a tunnel that uploaded one byte every 0.5s for %d bytes and then half-closed was cut off before the other side's answer 1.5s later (received %r, %s)" % (cfg, h["sent"], h["got"], h["how"]), rp)
+            continue
         if h["kind"] == "api":
             want = int(mp["idle_period tcp %s" % (period_tcp if cfg else "-")])
             if set(h["idle_timeout"]) != {want} or want != period_tcp:
